@@ -79,6 +79,10 @@
 #include <pcre2.h>
 #endif
 
+#ifdef HAVE_PTHREAD_H
+#include <pthread.h>
+#endif
+
 #include "archive.h"
 #include "archive_private.h"
 #include "archive_string.h"
@@ -171,6 +175,9 @@ archive_version_details(void)
 {
 	static struct archive_string str;
 	static int init = 0;
+#ifdef HAVE_PTHREAD_H
+	static pthread_mutex_t mtx = PTHREAD_MUTEX_INITIALIZER;
+#endif
 	const char *zlib = archive_zlib_version();
 	const char *liblzma = archive_liblzma_version();
 	const char *bzlib = archive_bzlib_version();
@@ -182,6 +189,9 @@ archive_version_details(void)
 	const char *librichacl = archive_librichacl_version();
 	const char *libattr = archive_libacl_version();
 
+#ifdef HAVE_PTHREAD_H
+	pthread_mutex_lock(&mtx);
+#endif
 	if (!init) {
 		archive_string_init(&str);
 
@@ -234,7 +244,11 @@ archive_version_details(void)
 			archive_strcat(&str, " libiconv/");
 			archive_strcat(&str, libiconv);
 		}
+		init = 1;
 	}
+#ifdef HAVE_PTHREAD_H
+	pthread_mutex_unlock(&mtx);
+#endif
 	return str.s;
 }
 
